@@ -76,22 +76,46 @@ fn main() {
                 Tier::Quick
             };
             match props::by_id(&id) {
-                Some(p) => {
+                Some(_) => {
                     let seed = driver::seed_from_env();
-                    let tmp = driver::worker_tmp("digest");
-                    for i in from..from + count {
-                        let mut rng = rng::Rng::new(driver::case_seed(seed, p.id(), i));
-                        let case = p.generate(&mut rng, tier);
-                        let mut ctx = Ctx::new(tier, tmp.clone());
-                        let v = driver::full_check(p.as_ref(), &case, &mut ctx).unwrap_or(None);
-                        println!(
-                            "{i} {:016x} runs={} events={}",
-                            driver::digest_of(&case, &v, ctx.stats.trace),
-                            ctx.stats.runs,
-                            ctx.stats.events
-                        );
+                    let n = driver::workers_from_env();
+                    let mut handles = Vec::new();
+                    for wi in 0..n {
+                        let id = id.clone();
+                        handles.push(std::thread::spawn(move || {
+                            let p = props::by_id(&id).unwrap();
+                            let tmp = driver::worker_tmp(&format!("digest{wi}"));
+                            let mut lines = Vec::new();
+                            let mut i = from + wi as u64;
+                            while i < from + count {
+                                let mut rng = rng::Rng::new(driver::case_seed(seed, p.id(), i));
+                                let case = p.generate(&mut rng, tier);
+                                let mut ctx = Ctx::new(tier, tmp.clone());
+                                let v = driver::full_check(p.as_ref(), &case, &mut ctx).unwrap_or(None);
+                                lines.push((
+                                    i,
+                                    format!(
+                                        "{i} {:016x} runs={} events={} viol={}",
+                                        driver::digest_of(&case, &v, ctx.stats.trace),
+                                        ctx.stats.runs,
+                                        ctx.stats.events,
+                                        v.map_or(String::from("-"), |v| v.rule)
+                                    ),
+                                ));
+                                i += n as u64;
+                            }
+                            let _ = std::fs::remove_dir_all(&tmp);
+                            lines
+                        }));
                     }
-                    let _ = std::fs::remove_dir_all(&tmp);
+                    let mut all = Vec::new();
+                    for h in handles {
+                        all.extend(h.join().unwrap_or_default());
+                    }
+                    all.sort();
+                    for (_, l) in all {
+                        println!("{l}");
+                    }
                     0
                 }
                 None => 2,
